@@ -137,6 +137,7 @@ def check_list(idx):
 
 def check_perm_split(idx):
     base = view(analyze_transactions(copy_txns(idx)))
+    base_cat = {k: (v['category'], v['subcategory']) for k, v in analyze_transactions(copy_txns(idx))['by_merchant'].items()}
     for perm in itertools.permutations(idx):
         if perm == tuple(idx):
             continue
@@ -144,6 +145,11 @@ def check_perm_split(idx):
         g = view(analyze_transactions(copy_txns(perm)))
         if g != base:
             O.fail('analyze.permutation', {'fn': 'analyze_transactions', 'pool_indices': list(idx), 'permuted': list(perm)}, base, g)
+        # the category a merchant is filed under (views and the HTML category view attribute the merchant's whole total to it)
+        gc = {k: (v['category'], v['subcategory']) for k, v in analyze_transactions(copy_txns(perm))['by_merchant'].items()}
+        if gc != base_cat:
+            O.fail('C06.merchant_category_is_last_transaction_wins', {'fn': 'analyze_transactions', 'pool_indices': list(idx), 'permuted': list(perm)}, base_cat, gc,
+                   "analyze_transactions(txns)['by_merchant'][m]['category'] for two orders of the same transactions")
     flow = ['income_total', 'investment_total', 'transfers_in', 'transfers_out', 'spending_total', 'credits_total', 'count', 'total_transactions']
     for cut in range(1, len(idx)):
         O.case(('split', cut) + tuple(idx))
